@@ -28,6 +28,8 @@ def bases(ctx, tier):
     B["nested-own-pattern"] = (ops.build(ctx, t2, [c("d", ["xxh64"], i=["*.log"]), c("", ["xxh64"])], expect=[0, 0]), True)
     B["n-generation-after-normal"] = (ops.build(ctx, T, [c("", ["xxh64"]), c("", ["xxh64"], n=True)], expect=[0, 0]), True)
     B["n-generation-before-normal"] = (ops.build(ctx, T, [c("", ["xxh64"], n=True), c("", ["xxh64"])], expect=[0, 0]), True)
+    B["nested-under-n-only-root"] = (ops.build(ctx, T, [c("d", ["md5"]), c("", ["xxh64"], n=True)], expect=[0, 0]), False)
+    B["nested-under-sf-only-root"] = (ops.build(ctx, T, [c("d", ["md5"]), c("", ["xxh64"], sf=["a.txt"])], expect=[0, 0]), False)
     B["n-generation-only"] = (ops.build(ctx, T, [c("", ["xxh64"], n=True)], expect=[0]), False)
     B["empty-folder"] = (ops.build(ctx, {}, [c("", ["xxh64"])], expect=[0]), True)
     B["three-gens"] = (ops.build(ctx, T, [c("", ["md5"]), c("", ["sha1", "c4"]), c("", ["xxh3"])], expect=[0, 0, 0]), True)
